@@ -16,7 +16,19 @@ import numpy as np
 from .. import monitors
 from ..oracles import geom, harmonics
 from . import common
-from .c03 import make_droplet
+from .c03 import make_droplet as _make_library_droplet
+
+_USER = {"on": False}
+
+
+def make_droplet(d):
+    """Droplet of the described class; DiffuseDroplet descriptions become the user-defined subclass `usercls.Squashed`
+    while a case that asks for it is running."""
+    if _USER["on"] and d["cls"] == "DiffuseDroplet":
+        from . import usercls
+
+        return usercls.Squashed(np.asarray(d["pos"], float), d["radius"], d["width"])
+    return _make_library_droplet(d)
 
 ID = "C04"
 RULE = (
@@ -253,6 +265,14 @@ def gen(rng, kind, tier):
         case["blemish"] = int(rng.integers(1, 1 << 30))
     if case is not None and rng.random() < 0.04:
         case["via_workers"] = True
+    g_ = case["grid"] if case is not None else None
+    if (case is not None and kind in ("self", "fit") and g_["family"] == "cart" and len(g_["shape"]) == 2 and not any(g_["periodic"])
+            and case["cand"]["cls"] == "DiffuseDroplet" and case["cand"].get("width") not in (None, 0.0) and rng.random() < 0.5):
+        # candidate (and true droplet) of a class the user derived from DiffuseDroplet, with its own rendering
+        case["user_class"] = "Squashed"
+        case["route"] = "ctor"
+        if case["image"].get("truth") and case["image"]["truth"]["cls"] != "DiffuseDroplet":
+            case.pop("user_class")
     if case is not None and case["image"]["type"] == "other" and rng.random() < 0.15:
         # the image as a camera delivers it: integer grey values (the two intensity levels are mapped to grey
         # values g0 < g1 and the pixels rounded), or single precision
@@ -296,6 +316,16 @@ def _params(d):
 
 
 def run(case, rec):
+    _USER["on"] = bool(case.get("user_class"))
+    try:
+        if _USER["on"]:
+            rec.count("candidates_of_a_user_defined_subclass")
+        _run(case, rec)
+    finally:
+        _USER["on"] = False
+
+
+def _run(case, rec):
     import droplets
     from droplets import droplets as dmod
     from droplets.image_analysis import refine_droplet
